@@ -1,5 +1,11 @@
-import KalignModel.Props.C08
+import KalignModel.Props.C08Opt
 #print axioms Kalign.C08_phi_tables
 #print axioms Kalign.C08_diag_unique_opt
 #print axioms Kalign.C08_diag_unique_opt_scaled
 #print axioms Kalign.C08_identical_msa_nogaps
+#print axioms Kalign.C08_identical_pair_diag
+#print axioms Kalign.C08_identical_pair_diag'
+#print axioms Kalign.C08_identical_pair_diag_table
+#print axioms Kalign.C08_identical_groups_diag
+#print axioms Kalign.C08_identical_seq_group_diag
+#print axioms Kalign.C08_identical_group_seq_diag
